@@ -16,6 +16,16 @@ import (
 
 var stridDecls = map[string]*FuncDecl{}
 
+// strGtFn: the byte-wise "greater than" relation on strings, over string ids.
+func (x *Exec) strGtFn() *FuncDecl {
+	d, ok := stridDecls["str_gt"]
+	if !ok {
+		d = &FuncDecl{Name: "str_gt", Params: []*Sort{IntSort, IntSort}, Ret: BoolSort}
+		stridDecls["str_gt"] = d
+	}
+	return d
+}
+
 func (x *Exec) keyID(st *State, kt types.Type, v Value) (*Term, bool) {
 	if sl, ok := v.(Sl); ok && isStringType(kt) {
 		arr := x.slComp(st, sl)[0]
